@@ -553,45 +553,90 @@ func rpcAgreement(c *Ctx, id string) {
 			if cc == nil || cc.StaticCallee() == nil || fname(cc.StaticCallee()) != "(*net/rpc.Client).Call" || len(cc.Args) != 4 {
 				return
 			}
-			n++
 			c.see(fn)
-			name := w.Origin(cc.Args[1])
-			construct := "rpc-call:" + strings.TrimSuffix(strings.TrimPrefix(name, "const(\""), "\")")
-			if !strings.HasPrefix(name, "const(\"Handler.") {
-				c.Fail(id, construct, in.Pos(), "the method name %s is not a constant Handler.<method>", name)
-				return
-			}
-			method := strings.TrimSuffix(strings.TrimPrefix(name, "const(\"Handler."), "\")")
-			sel := ms.Lookup(handler.Obj().Pkg(), method)
-			if sel == nil {
-				c.Fail(id, construct, in.Pos(), "the client calls Handler.%s, which the handler does not have: every such call fails at run time", method)
-				return
-			}
-			sig := sel.Type().(*types.Signature)
 			dyn := func(v ssa.Value) types.Type {
 				if mi, ok := v.(*ssa.MakeInterface); ok {
 					return mi.X.Type()
 				}
 				return v.Type()
 			}
-			if sig.Params().Len() != 2 || !types.Identical(sig.Params().At(0).Type(), dyn(cc.Args[2])) || !types.Identical(sig.Params().At(1).Type(), dyn(cc.Args[3])) {
-				c.Fail(id, construct, in.Pos(), "Handler.%s takes %s, the client sends (%s, %s)", method, sig.Params(), dyn(cc.Args[2]), dyn(cc.Args[3]))
-				return
-			}
-			// the client method that makes this call is the one of the same name (Rebalance calls Handler.Rebalance)
-			owner := ""
-			for _, m := range w.implsOf("servicediscovery", "Client", method) {
-				for _, u := range methodUnit(w, m) {
-					if u == fn {
-						owner = method
+			judge := func(name string, payloadT, replyT types.Type, site ssa.Instruction, inFn *ssa.Function) {
+				n++
+				construct := "rpc-call:" + strings.TrimSuffix(strings.TrimPrefix(name, "const(\""), "\")")
+				if !strings.HasPrefix(name, "const(\"Handler.") {
+					c.Fail(id, construct, site.Pos(), "the method name %s is not a constant Handler.<method>", name)
+					return
+				}
+				method := strings.TrimSuffix(strings.TrimPrefix(name, "const(\"Handler."), "\")")
+				sel := ms.Lookup(handler.Obj().Pkg(), method)
+				if sel == nil {
+					c.Fail(id, construct, site.Pos(), "the client calls Handler.%s, which the handler does not have: every such call fails at run time", method)
+					return
+				}
+				sig := sel.Type().(*types.Signature)
+				if sig.Params().Len() != 2 || payloadT == nil || replyT == nil || !types.Identical(sig.Params().At(0).Type(), payloadT) || !types.Identical(sig.Params().At(1).Type(), replyT) {
+					c.Fail(id, construct, site.Pos(), "Handler.%s takes %s, the client sends (%s, %s)", method, sig.Params(), payloadT, replyT)
+					return
+				}
+				// the client method that makes this call is the one of the same name (Rebalance calls Handler.Rebalance)
+				owner := ""
+				for _, m := range w.implsOf("servicediscovery", "Client", method) {
+					for _, u := range methodUnit(w, m) {
+						if u == inFn {
+							owner = method
+						}
 					}
 				}
+				if owner == "" {
+					c.Fail(id, construct, site.Pos(), "Handler.%s is called from %s, not from the client's %s", method, fname(rootFn(inFn)), method)
+					return
+				}
+				c.OK(id, construct, site.Pos(), "Handler.%s%s exists and receives (%s, %s)", method, sig.Params(), payloadT, replyT)
 			}
-			if owner == "" {
-				c.Fail(id, construct, in.Pos(), "Handler.%s is called from %s, not from the client's %s", method, fname(rootFn(fn)), method)
+			name := w.Origin(cc.Args[1])
+			if strings.HasPrefix(name, "const(") {
+				judge(name, dyn(cc.Args[2]), dyn(cc.Args[3]), in, fn)
 				return
 			}
-			c.OK(id, construct, in.Pos(), "Handler.%s%s exists and receives (%s, %s)", method, sig.Params(), dyn(cc.Args[2]), dyn(cc.Args[3]))
+			// the call sits in a helper (possibly generic: `callWithRetry[R](c, "Handler.M", func() any {…})`) that is
+			// handed the method name and a function building the payload: judged at each of the helper's call sites
+			root := rootFn(fn)
+			if root.TypeParams().Len() > 0 && len(root.TypeArgs()) == 0 {
+				return // the uninstantiated body of a generic helper: its instantiations are judged
+			}
+			nameP, argsP := -1, -1
+			for i, p := range root.Params {
+				if strings.Contains(name, "param("+p.Name()+")") {
+					nameP = i
+				}
+				if _, isSig := p.Type().Underlying().(*types.Signature); isSig && strings.Contains(w.Origin(cc.Args[2]), "param("+p.Name()+")") {
+					argsP = i
+				}
+			}
+			sites := w.callersOf(root)
+			if nameP < 0 || len(sites) == 0 {
+				judge(name, dyn(cc.Args[2]), dyn(cc.Args[3]), in, fn)
+				return
+			}
+			for _, cs := range sites {
+				a := cs.Call.Common().Args
+				if nameP >= len(a) {
+					continue
+				}
+				var payloadT types.Type
+				if argsP >= 0 && argsP < len(a) {
+					if cl := closureOf(a[argsP]); cl != nil {
+						allInstrs(cl, func(x ssa.Instruction) {
+							if r, isR := x.(*ssa.Return); isR && len(r.Results) == 1 {
+								payloadT = dyn(r.Results[0])
+							}
+						})
+					}
+				} else {
+					payloadT = dyn(cc.Args[2])
+				}
+				judge(w.Origin(a[nameP]), payloadT, dyn(cc.Args[3]), cs.Call, cs.Fn)
+			}
 		})
 	}
 	c.Check(n >= 3, id, "rpc-floor", 0, fmt.Sprintf("%d RPC calls compared with the handler", n), fmt.Sprintf("only %d RPC calls found (3 on the reference tree)", n))
